@@ -321,6 +321,60 @@ def rule_args_snapshot(ctx: Ctx) -> RuleResult:
     return rr
 
 
+def rule_callback_equality(ctx: Ctx) -> RuleResult:
+    """disconnect() finds the handler by *equality* of (callback, user_arg, user_args): every `obj.method` access makes
+    a new bound-method object, so identity never matches what connect() stored.  No test in the Signals class may
+    compare a callback by identity (`is`), except against None."""
+    p = ctx.p
+    rr = RuleResult("KIND", "C14.9", "Signals compares callbacks by equality, never by identity", floor=1)
+    cls = p.cls(SIG)
+    n_cmp = 0
+    for fi in p.all_class_functions(cls):
+        cbs = {a for a in fi.params if a == "callback"}
+        if not cbs:
+            continue
+        for c in fi.own_nodes():
+            if isinstance(c, ast.Compare):
+                ops = [c.left, *c.comparators]
+                if any(isinstance(o, ast.Name) and o.id in cbs for o in ops):
+                    n_cmp += 1
+                    rr.inst(f"{short(fi)}:{norm(c, 40)}", True)
+                    for i, op in enumerate(c.ops):
+                        a, b = ops[i], ops[i + 1]
+                        if isinstance(op, (ast.Is, ast.IsNot)) and not any(isinstance(x, ast.Constant) and x.value is None for x in (a, b)):
+                            rr.add(finding("KIND", fi, c, f"`{norm(c, 50)}` compares the callback by identity: a bound method handed to disconnect_signal() is a different object from the equal one connect stored, so the handler is never found and keeps being called", construct=f"callback compared by identity: {norm(c, 50)}"))
+        rr.inst(f"{short(fi)}", True)
+    return rr
+
+
+def rule_meta_fresh(ctx: Ctx) -> RuleResult:
+    """MetaSignals.__init__ collects the signal names of a class and its bases by extending a list in place.  That list
+    must be the class's own declaration (taken from the class dict) or a fresh one - a list reached through getattr() on
+    the class may be *inherited*, and extending it rewrites the signal list of a base class (and of every subclass
+    of that base defined later)."""
+    from ..rules.defuse import DefUse
+
+    p = ctx.p
+    rr = RuleResult("FRESH", "C14.10", "MetaSignals.__init__ extends only the class's own signal list (from the class dict) or a fresh list", floor=1)
+    fi = p.func("urwid.signals.MetaSignals.__init__")
+    du = DefUse(fi)
+    dparam = fi.params[-1]
+    for node in du.cfg.nodes:
+        if node.ast is None or node.kind in ("for", "with", "handler"):
+            continue
+        for c in walk_no_nested(node.ast):
+            if isinstance(c, ast.Call) and isinstance(c.func, ast.Attribute) and c.func.attr in ("extend", "append", "insert") and isinstance(c.func.value, ast.Name):
+                for v, how, dn in du.reaching(c.func.value.id, node):
+                    if not isinstance(v, ast.AST):
+                        continue
+                    txt = ast.unparse(v)
+                    own = (isinstance(v, ast.Call) and isinstance(v.func, ast.Attribute) and v.func.attr == "get" and isinstance(v.func.value, ast.Name) and v.func.value.id == dparam) or isinstance(v, (ast.List, ast.ListComp)) or (isinstance(v, ast.Call) and isinstance(v.func, ast.Name) and v.func.id == "list")
+                    rr.inst(f"{norm(c, 40)}<-{txt[:40]}", True, {"mutation": norm(c, 50), "list_is": txt[:60]})
+                    if not own:
+                        rr.add(finding("FRESH", fi, c, f"`{norm(c, 50)}` extends a list obtained as `{txt[:60]}`: for a class that declares no signals of its own this is the list object of a base class, which is rewritten in place - after `class AB(A, B)` A.signals contains B's names and every later subclass of A accepts them", construct=f"inherited signal list extended in place: {txt[:50]}"))
+    return rr
+
+
 def run(ctx: Ctx):
     p = ctx.p
     out = [
@@ -331,6 +385,8 @@ def run(ctx: Ctx):
         rule_connect_disconnect(ctx),
         rule_dead_weak(ctx),
         rule_args_snapshot(ctx),
+        rule_callback_equality(ctx),
+        rule_meta_fresh(ctx),
         rule_emit_total(ctx),
         rule_list_identity(ctx),
         rule_disconnect_fields(ctx),
@@ -342,6 +398,8 @@ from ..mutants import Mut  # noqa: E402
 
 _F = "urwid/signals.py"
 MUTANTS = [
+    Mut("disconnect-prefilter-by-identity", "urwid/signals.py", "Signals.disconnect", "        handlers = signals[name]\n", "        handlers = signals[name]\n        if not any(h[1] is callback for h in handlers):\n            return None\n", "KIND|signals.Signals.disconnect"),
+    Mut("meta-signals-extends-inherited-list", "urwid/signals.py", "MetaSignals.__init__", "signals = d.get(\"signals\", [])", "signals = getattr(cls, \"signals\", [])", "FRESH|signals.MetaSignals.__init__"),
     Mut("user-args-not-copied", "urwid/signals.py", "Signals._prepare_user_args", "args = tuple(user_args) or ()", "args = user_args or ()", "SNAP|signals.Signals._prepare_user_args"),
     Mut("twin-user-args-tuple-only", "urwid/signals.py", "Signals._prepare_user_args", "args = tuple(user_args) or ()", "args = tuple(user_args)", twin=True),
     Mut("emit-live-list", _F, "Signals.emit", "in list(handlers):", "in handlers:", "SNAP|signals.Signals.emit"),
